@@ -96,6 +96,7 @@ structure Variant where
   c121 : Bool := false    -- VLAN actions store the argument unreduced
   c122 : Bool := false    -- `strip_vlan` also "strips" a `vlan` object that did not parse (`set_payload(None)` raises)
   c126 : Bool := false    -- `set_nw_tos` stores all 8 bits of the argument (the ECN bits of the packet are overwritten)
+  c134 : Bool := false    -- a flow_mod whose actions include a type without handler is installed silently (no pre-check)
   deriving DecidableEq, Repr
 
 /-- a parsed `ethernet` object: its attributes and its `next` -/
@@ -503,7 +504,11 @@ inductive Op where
 def step (var : Variant) (sw : Sw) : Op → M (Sw × List Out)
   | .portMod no hw c m => .ok (portMod sw no hw c m)
   | .setConfig fl ml => .ok ({ sw with flags := fl, missLen := ml }, [])
-  | .flowAdd r => .ok ({ sw with table := sw.table ++ [r] }, [])
+  -- `_rx_flow_mod` (repair C13-4): an action type that is not in `action_handlers` is answered with
+  -- OFPET_BAD_ACTION / OFPBAC_BAD_TYPE and nothing is installed; without the repair the entry is installed as it is
+  | .flowAdd r =>
+    if !var.c134 && r.acts.any (fun a => match a with | .vendor _ => true | _ => false) then .ok (sw, [.error 2 0])
+    else .ok ({ sw with table := sw.table ++ [r] }, [])
   | .packetOut acts f inPort => packetOut var sw acts f inPort
   | .rx f inPort wire => rxWire var sw f inPort wire
   | .rxObj f inPort => rxObj var sw f inPort
